@@ -18,6 +18,36 @@ G_DOC = [
 ]
 
 
+FIXED_WIDTH = set(rm.PAD) | {"YYYY", "GGGG", "Q"}
+
+
+def tokens(raw):
+    """longest-match tokenisation of a v2 pattern into part names and literal characters"""
+    names = sorted(rm.PARTS, key=len, reverse=True)
+    out, i = [], 0
+    while i < len(raw):
+        for n in names:
+            if raw.startswith(n, i):
+                out.append(n)
+                i += len(n)
+                break
+        else:
+            out.append(raw[i])
+            i += 1
+    return out
+
+
+def glued_ambiguous(raw):
+    """a part of variable width (MAJOR, YY, UU, BUILD ...) directly followed - no literal in between - by another numeric part:
+    the rendering '110' of YYUU is (1, 10) and (11, 0) alike, no reader can tell. Such a pattern is not a usable version pattern
+    (the README offers the zero-padded parts for exactly this), and is outside every round-trip claim"""
+    toks = [t for t in tokens(raw) if t not in "[]"]
+    for a, b in zip(toks, toks[1:]):
+        if a in rm.PARTS and b in rm.PARTS and a not in FIXED_WIDTH and a not in ("TAG", "PYTAG") and b not in ("TAG", "PYTAG"):
+            return True
+    return False
+
+
 def info(raw):
     ast = rm.parse_pattern(raw)
     parts = rm.parts_in_order(ast)
